@@ -400,6 +400,13 @@ func header(typ, length int, tid []byte) []byte {
 
 func pad4(l int) int { return (l + 3) / 4 * 4 }
 
+func max1(n int) int {
+	if n < 1 {
+		return 1
+	}
+	return n
+}
+
 var knownTypes = []int{0x0001, 0x0006, 0x0008, 0x0009, 0x000A, 0x0014, 0x0015, 0x0020, 0x8020, 0x8022, 0x8023,
 	0x8028, 0x0024, 0x0025, 0x8029, 0x802A, 0x000C, 0x000D, 0x0012, 0x0013, 0x0016, 0x802b, 0x802C, 0x001C}
 
@@ -612,6 +619,55 @@ func runDecodeStreams(g *decodeGen, bound, nValid, nMut, nRand, nBig int) map[st
 					g.emit(b, "protocol-constants")
 				}
 			}
+		}
+	}
+	// the literals of the library's own source as inputs: every small number as an attribute type and as a message
+	// type, every 32-bit number as a value and as a header cookie, every string as a value; every number that could
+	// be a limit on counts as the number of attributes of a message (n-1, n, n+1)
+	// ... pairwise: a condition on two of (cookie, message type, first attribute type, its value) is met by some case
+	narrow := litIntsIn(0, 0xffff, 120)
+	wide := litIntsIn(0x10000, 0xffffffff, 12)
+	be32 := func(v int) []byte { return []byte{byte(v >> 24), byte(v >> 16), byte(v >> 8), byte(v)} }
+	mkLit := func(cookie, typ, at int, val []byte) {
+		b := append(header(typ&0xffff, 4+pad4(len(val)), r.bytes(12)), r.tlv(at, val, len(val))...)
+		copy(b[4:8], be32(cookie))
+		g.emit(b, "source-literals")
+	}
+	cookies := append([]int{0x2112A442}, wide...)
+	for _, c := range cookies {
+		for _, n := range narrow {
+			mkLit(c, n, 0x8022, be32(c))
+			mkLit(c, 0x0101, n, be32(c))
+		}
+		for _, w := range cookies {
+			mkLit(c, 0x0001, 0x000F, be32(w))
+		}
+	}
+	for i, a := range narrow {
+		for j, b := range narrow {
+			if (i+j)%3 == 0 || a == b {
+				wv := 0
+				if len(wide) > 0 {
+					wv = wide[(i+j)%len(wide)]
+				}
+				mkLit(0x2112A442, a, b, be32(wv))
+			}
+		}
+	}
+	for k, sv := range litStrs {
+		if k >= 300 {
+			break
+		}
+		b := append(header(0x0101, 4+pad4(len(sv)), r.bytes(12)), r.tlv(r.pick([]int{0x0006, 0x0015, 0x8022, 0x000F}), sv, len(sv))...)
+		g.emit(b, "source-literals")
+	}
+	for _, n := range litIntsIn(8, 16382, 12) {
+		for _, k := range []int{n - 1, n, n + 1} {
+			body := make([]byte, 0, 4*k)
+			for j := 0; j < k; j++ {
+				body = append(body, 0x80, 0x22, 0, 0)
+			}
+			g.emit(append(header(1, len(body), r.bytes(12)), body...), "source-literal-counts")
 		}
 	}
 	// a message cut in two consecutive inputs (what a stream transport may hand over): the tail is not a
